@@ -63,7 +63,7 @@ func runC19(c *Ctx) {
 			return
 		}
 	}
-	n := c.Pick(1500, 30000)
+	n := c.Pick(1500, 90000)
 	var mu sync.Mutex
 	var evals, preN, lookN, inplaceN, sameLenN int64
 	distinct := mon.NewDistinct(1_000_000)
